@@ -1,17 +1,30 @@
 #!/bin/bash
 # usage: tools/seeded_eval.sh <seeded-id> "<props>" [tier] [seeds]
-# Applies /verif/seeded/<id>/patch.diff to /repo, runs the given checks, reverts /repo. Prints one line per check.
+# Runs the given checks against /verif/seeded/<id>/patch.diff and prints one line per check.
+# Default: the patch is applied in a scratch worktree of /repo HEAD under /tmp (removed afterwards) and the checks
+# are pointed at it with MICI_SRC, so /repo itself stays untouched (other runs may be reading it).
+# SEEDED_INPLACE=1: the literal procedure - git -C /repo apply, run, git -C /repo checkout -- .
 id=$1; props=$2; tier=${3:-quick}; seeds=${4:-0}
-cd /repo || exit 2
-git diff --quiet || { echo "/repo not clean"; exit 2; }
-git apply /verif/seeded/$id/patch.diff || { echo "patch does not apply"; exit 2; }
+if [ "$SEEDED_INPLACE" = "1" ]; then
+  cd /repo || exit 2
+  git diff --quiet || { echo "/repo not clean"; exit 2; }
+  git apply /verif/seeded/$id/patch.diff || { echo "patch does not apply"; exit 2; }
+  src=/repo/src
+else
+  wt=/tmp/seval_$id
+  rm -rf $wt; git -C /repo worktree prune
+  git -C /repo worktree add -q --detach $wt HEAD || exit 2
+  git -C $wt apply /verif/seeded/$id/patch.diff || { echo "patch does not apply"; git -C /repo worktree remove --force $wt; exit 2; }
+  src=$wt/src
+fi
 cd /verif
 # evidence files must only ever describe runs on the unchanged tree: keep them aside
 rm -rf /root/scratch/evidence_keep; cp -r /verif/evidence /root/scratch/evidence_keep
 for s in $seeds; do for p in $props; do
-  out=$(VERIF_SEED=$s VERIF_TIER=$tier timeout 3000 /venv/bin/python -m checks.run $p 2>&1); rc=$?
+  out=$(MICI_SRC=$src VERIF_SEED=$s VERIF_TIER=$tier timeout 3000 /venv/bin/python -m checks.run $p 2>&1); rc=$?
   echo "seeded=$id check=$p seed=$s tier=$tier rc=$rc"
   echo "$out" | grep -E "^\[$p\] violation" | cut -c1-500 | head -3
 done; done
-git -C /repo checkout -- . ; rm -f /verif/replays/*.json
+if [ "$SEEDED_INPLACE" = "1" ]; then git -C /repo checkout -- . ; else git -C /repo worktree remove --force $wt; fi
+rm -f /verif/replays/*.json
 rm -rf /verif/evidence; cp -r /root/scratch/evidence_keep /verif/evidence
